@@ -323,10 +323,17 @@ func (g *progGen) stmt() string {
 		for i := range ops {
 			ops[i] = g.operand()
 		}
-		if n == 0 {
-			return "\t" + pick(r, handled)
+		mn := pick(r, handled)
+		if r.Chance(1, 4) { // any mnemonic the grammar knows, handled by gosk or not
+			mn = pick(r, allOpcodes)
+			for mn == "END" || mn == "TIMES" || mn == "ALIGN" {
+				mn = pick(r, allOpcodes)
+			}
 		}
-		return "\t" + pick(r, handled) + "\t" + strings.Join(ops, ",")
+		if n == 0 {
+			return "\t" + mn
+		}
+		return "\t" + mn + "\t" + strings.Join(ops, ",")
 	}
 	if r.Chance(1, 7) { // the same operand text under different mnemonics
 		return "\t" + pick(r, []string{"MOV", "MOV", "ADD", "SUB", "CMP", "AND", "OR", "XOR", "ADC", "SBB", "TEST"}) + "\t" + pick(r, sharedOperands)
